@@ -195,7 +195,7 @@ func (e *explainer) explain(goal ast.Atom, depth int) []*ProofNode {
 
 	var proofs []*ProofNode
 
-	if e.isEDB(goal.Predicate) && e.store.Contains(goal) {
+	if (e.isEDB(goal.Predicate) || e.isInitialFact(goal)) && e.store.Contains(goal) {
 		proofs = append(proofs, &ProofNode{
 			ID:   edbProofID(goal),
 			Fact: goal,
@@ -352,6 +352,20 @@ func (e *explainer) isEDB(p ast.PredicateSym) bool {
 	}
 	_, ok := e.program.EdbPredicates[p]
 	return ok
+}
+
+// isInitialFact returns true if goal is a fact stated in the program. Such
+// facts are leaves even when their predicate also has rules.
+func (e *explainer) isInitialFact(goal ast.Atom) bool {
+	if e.program == nil {
+		return false
+	}
+	for _, f := range e.program.InitialFacts {
+		if f.Equals(goal) {
+			return true
+		}
+	}
+	return false
 }
 
 // --- helpers ---
